@@ -20,20 +20,22 @@ StopAt == IF "STOPAT" \in DOMAIN IOEnv THEN atoi(IOEnv.STOPAT) ELSE 0
 ev == Trace[l]
 Is(e) == l <= Len(Trace) /\ Trace[l].e = e /\ l' = l + 1
 
-DefaultCfg == [mode |-> "onlyonce", qq0 |-> TRUE, maxinflight |-> 100, sessexpiry |-> 7200]
+DefaultCfg == [mode |-> "onlyonce", qq0 |-> TRUE, maxinflight |-> 100, sessexpiry |-> 7200,
+               srvrecvmax |-> 100, srvaliasmax |-> 10, srvmaxpkt |-> 268435456]
 
 TInit == /\ l = 1 /\ BInit(DefaultCfg)
 
 Msg(x) == [topic |-> x.topic, lv |-> x.lv, sys |-> x.sys, qos |-> x.qos, retain |-> x.retain, empty |-> x.empty,
-           tag |-> x.tag, pid |-> x.pid, dup |-> x.dup]
+           tag |-> x.tag, pid |-> x.pid, dup |-> x.dup, alias |-> x.alias, notopic |-> x.notopic, size |-> x.size, fsize |-> x.fsize]
 
 TNext ==
   \/ /\ Is("reset")
-     /\ cfg' = [mode |-> ev.mode, qq0 |-> ev.qq0, maxinflight |-> ev.maxinflight, sessexpiry |-> ev.sessexpiry]
+     /\ cfg' = [mode |-> ev.mode, qq0 |-> ev.qq0, maxinflight |-> ev.maxinflight, sessexpiry |-> ev.sessexpiry,
+             srvrecvmax |-> ev.srvrecvmax, srvaliasmax |-> ev.srvaliasmax, srvmaxpkt |-> ev.srvmaxpkt]
      /\ subs' = {} /\ conn' = <<>> /\ sess' = <<>> /\ owed' = <<>> /\ gowed' = {}
      /\ ctl' = <<>> /\ ret' = <<>> /\ unack' = <<>> /\ infl' = <<>> /\ last' = <<>>
      /\ ctr' = [pub |-> 0, oid |-> 0]
-  \/ Is("connect")     /\ Connect(ev.k, ev.cid, ev.ver, ev.clean, ev.recvmax, ev.expiry)
+  \/ Is("connect")     /\ Connect(ev.k, ev.cid, ev.ver, ev.clean, ev.recvmax, ev.expiry, [maxpkt |-> ev.maxpkt, aliasmax |-> ev.aliasmax])
   \/ Is("connack")     /\ \/ Connack(ev.k, ev.sp, ev.code)
                           \/ ConnackFail(ev.k, ev.code)
   \/ Is("subscribe")   /\ Subscribe(ev.k, ev.pid, ev.subid, ev.subs)
@@ -47,7 +49,7 @@ TNext ==
   \/ Is("pubcomp")     /\ PubAckRecv(ev.k, "pubcomp", ev.pid, ev.code)
   \/ Is("pubrel")      /\ ClientPubrel(ev.k, ev.pid)
   \/ Is("deliver")     /\ Deliver(ev.k, [topic |-> ev.topic, tag |-> ev.tag, qos |-> ev.qos, retain |-> ev.retain,
-                                         dup |-> ev.dup, pid |-> ev.pid, ids |-> ev.ids])
+                                         dup |-> ev.dup, pid |-> ev.pid, ids |-> ev.ids, size |-> ev.size, alias |-> ev.alias])
   \/ Is("cack")        /\ ClientAck(ev.k, ev.t, ev.pid, ev.code)
   \/ Is("relout")      /\ PubrelRecv(ev.k, ev.pid)
   \/ Is("pingreq")     /\ Pingreq(ev.k)
@@ -55,7 +57,7 @@ TNext ==
   \/ Is("disconnect")  /\ ConnEnd(ev.k, ev.expiry)
   \/ Is("abort")       /\ ConnEnd(ev.k, -1)
   \/ Is("eof")         /\ ConnEnd(ev.k, -1)
-  \/ Is("srvdisconnect") /\ UNCHANGED bvars
+  \/ Is("srvdisconnect") /\ SrvDisconnect(ev.k, ev.code)
   \/ Is("quiet")       /\ Quiet
   \/ Is("note")        /\ UNCHANGED bvars
 
